@@ -106,10 +106,23 @@ CHECKS["C06"] = dict(
          "verdict currently rests on the loop-free half of the family for anything beyond that finding.",
     design_ref="5/C06", engine="GIRControl")
 
+CHECKS["C01"] = dict(
+    category="translation_validation",
+    technique="executable TLA+ operational semantics of GIR (GIRMachine, concrete mode) run by TLC on the GIR the real python frontend emitted; outputs compared with CPython for every program and argument vector",
+    text="GIRMachine gives the documented meaning of the GIR instructions (names and scopes, closures, calls with positional/keyword/default "
+         "binding, classes with fields and methods, lists/tuples/dicts, loops with break/continue and condition pre-statements) as a "
+         "small-step machine; TLC executes the rows emitted by the current frontend for hand-written construct programs (one per lowering "
+         "handler) and a grammar-generated family, each called with 8 argument vectors, and the printed values must equal CPython's.",
+    note="The semantics is a reading of docs 3-2 validated by the same comparison (a wrong rule shows up as a disagreement); integers < 2^30, "
+         "scalar outputs; programs the reference run rejects are skipped and counted.",
+    design_ref="5/C01", engine="GIRMachine")
+
 NOT_YET = {
 }
 
 ENGINES = [
+    dict(name="GIRMachine", path="specs/GIRMachine.tla harness/c01.py harness/pygen.py harness/girjson.py harness/lianrun.py",
+         serves_properties=["C01"], kind_free_text="executable TLA+ operational semantics of GIR, TLC as interpreter"),
     dict(name="Pipeline", path="specs/Pipeline.tla harness/c14.py harness/c14_digest.py",
          serves_properties=["C14"], kind_free_text="deterministic TLA+ spec as trace validator + differential runs"),
     dict(name="GIRControl", path="specs/GIRControl.tla specs/ReachingDefs.tla harness/c04.py harness/c06.py harness/skeleton.py harness/girjson.py harness/lianrun.py",
